@@ -135,6 +135,37 @@ func solveScript(script, dir, base string, timeoutS int) solveOut {
 	return best
 }
 
+// solveWide: every back end with three different seeds at once (used for the serial second chance, when the machine is
+// otherwise idle): quantifier instantiation is sensitive to seeds and to symbol names, a wider net makes the outcome stable.
+func solveWide(script, dir, base string, timeoutS int) solveOut {
+	file := filepath.Join(dir, base+".smt2")
+	os.WriteFile(file, []byte(script), 0644)
+	ctx, cancel := context.WithCancel(context.Background())
+	defer cancel()
+	seeds := []int{1, 7, 42}
+	ch := make(chan solveOut, len(solvers)*len(seeds))
+	t0 := time.Now()
+	for _, sv := range solvers {
+		for _, sd := range seeds {
+			sv, sd := sv, sd
+			go func() { ch <- runSolverSeed(ctx, sv, timeoutS, file, sd) }()
+		}
+	}
+	var best solveOut
+	for i := 0; i < len(solvers)*len(seeds); i++ {
+		o := <-ch
+		if o.result == "unsat" || o.result == "sat" {
+			o.secs = time.Since(t0).Seconds()
+			return o
+		}
+		if best.result == "" || (best.result == "error" && o.result != "error") || o.result == "timeout" {
+			best = o
+		}
+	}
+	best.secs = time.Since(t0).Seconds()
+	return best
+}
+
 func getModel(script, dir, base string, timeoutS int, backend string) string {
 	file := filepath.Join(dir, base+".model.smt2")
 	os.WriteFile(file, []byte(script+"(get-model)\n"), 0644)
@@ -204,7 +235,12 @@ func solveOne(fr *FuncResult, o *Obl, id int, dir string, timeoutS int, suffix s
 				to = 2
 				script = relaxScript(script)
 			}
-			out := solveScript(script, dir, base, to)
+			var out solveOut
+			if suffix != "" {
+				out = solveWide(script, dir, base, to)
+			} else {
+				out = solveScript(script, dir, base, to)
+			}
 			j.o.Result = out.result
 			j.o.Backend = out.backend
 			j.o.Secs = out.secs
